@@ -172,5 +172,5 @@ Definition model_view_r (c : c16case) : view :=
   end.
 End Rounding.
 
-Definition mismatches := mismatches_r RTrunc.
-Definition model_view := model_view_r RTrunc.
+Definition mismatches := mismatches_r RCeil.
+Definition model_view := model_view_r RCeil.
